@@ -143,8 +143,13 @@ func assemble(ids []string) (string, []exp, []bool) {
 	var b strings.Builder
 	var e []exp
 	var grouped []bool
+	declared := map[string]bool{}
 	for _, id := range ids {
 		it := items[itemIndex[id]]
+		if it.Fixture != "" && !declared[it.Fixture] {
+			declared[it.Fixture] = true
+			b.WriteString(sharedFixtures[it.Fixture])
+		}
 		b.WriteString(it.Src)
 		b.WriteString("\n")
 		for _, x := range expected(it) {
@@ -518,7 +523,7 @@ func gen10(tier string, emit func(Case)) {
 	inter := idsOf(func(it item) bool { return it.Class == "writer" || it.Class == "reader" || it.Class == "group" })
 	// a reduced interaction alphabet for triples in the quick tier: the writers that touch state
 	// shared beyond one interpreter's context, and the readers that look at it
-	coreSet := map[string]bool{"w_table_set": true, "w_table_merge": true, "w_inject": true, "w_mock": true, "w_mock_fn": true, "w_fixed_time": true, "w_backend_health": true, "w_header": true, "w_ratecounter": true, "w_penaltybox": true, "w_regex": true, "w_fail_after_write": true, "g_stateful": true, "g_shadow": true, "g_mock": true,
+	coreSet := map[string]bool{"w_table_merge_then_set": true, "r_table_merge": true, "w_table_set": true, "w_table_merge": true, "w_inject": true, "w_mock": true, "w_mock_fn": true, "w_fixed_time": true, "w_backend_health": true, "w_header": true, "w_ratecounter": true, "w_penaltybox": true, "w_regex": true, "w_fail_after_write": true, "g_stateful": true, "g_shadow": true, "g_mock": true,
 		"r_table": true, "r_inject": true, "r_mock": true, "r_time": true, "r_backend_health": true, "r_header": true, "r_rate": true, "r_regex": true, "r_state": true}
 	core := idsOf(func(it item) bool { return coreSet[it.ID] })
 
